@@ -11,8 +11,10 @@ import (
 	"context"
 	"encoding/json"
 	"fmt"
+	"math"
 	stdh "net/http"
 	"net/url"
+	"strconv"
 	"strings"
 
 	"github.com/cloudwego/dynamicgo/conv"
@@ -229,6 +231,135 @@ func (c *c17) run(hc HMCase) {
 	c.out.Emit(ev)
 }
 
+// ---- conversion by field type: one value (abstract, from the TLA+ table) delivered as text in one source ----
+
+type HVCase struct {
+	Kind string          `json:"kind"` // "hv"
+	Ty   string          `json:"ty"`
+	V    json.RawMessage `json:"v"`
+	Src  string          `json:"src"`
+}
+
+func hvScalarText(ty string, v []byte) string {
+	switch ty {
+	case "bool":
+		if len(v) == 8 && v[7] == 1 {
+			return "true"
+		}
+		return "false"
+	case "double":
+		return strconv.FormatFloat(math.Float64frombits(uint64(fromBE8(v))), 'g', -1, 64)
+	case "string":
+		return string(v)
+	}
+	return strconv.FormatInt(fromBE8(v), 10)
+}
+
+func (c *c17) hv(hc HVCase) {
+	c.cases++
+	tyw := map[string]string{"bool": "bool", "i8": "byte", "i16": "i16", "i32": "i32", "i64": "i64", "double": "double", "string": "string",
+		"list_i32": "list<i32>", "list_string": "list<string>"}[hc.Ty]
+	var text string
+	var vj interface{}
+	if strings.HasPrefix(hc.Ty, "list_") {
+		var vs []B
+		if err := json.Unmarshal(hc.V, &vs); err != nil {
+			die("hv list value: %v: %s", err, hc.V)
+		}
+		var parts []string
+		for _, e := range vs {
+			parts = append(parts, hvScalarText(hc.Ty[5:], e))
+		}
+		text, vj = strings.Join(parts, ","), vs
+	} else {
+		var v B
+		if err := json.Unmarshal(hc.V, &v); err != nil {
+			die("hv value: %v: %s", err, hc.V)
+		}
+		text, vj = hvScalarText(hc.Ty, v), v
+	}
+	idl := fmt.Sprintf("namespace go hv\nstruct Req {\n  1: required %s f (%s = \"k\")\n  2: optional string plain\n}\nservice S { Req M(1: Req r) }\n", tyw, hmAnno[hc.Src])
+	desc, ok := c.descs[idl]
+	if !ok {
+		svc, err := thrift.NewDescritorFromContent(context.Background(), "hv.thrift", idl, nil, true)
+		if err != nil {
+			die("hv idl rejected: %v\n%s", err, idl)
+		}
+		fn, _ := svc.LookupFunctionByMethod("M")
+		desc = fn.Request().Struct().FieldById(1).Type()
+		c.descs[idl] = desc
+	}
+	ev := map[string]interface{}{"ev": "HV", "ty": hc.Ty, "v": vj, "src": hc.Src, "st": "ok", "t": 0, "got": B{}, "plain": false, "txt": text, "case": hc}
+	func() {
+		defer func() {
+			if e := recover(); e != nil {
+				ev["st"] = "panic:" + fmt.Sprint(e)
+			}
+		}()
+		u := "http://localhost:8888/root"
+		if hc.Src == "query" {
+			u += "?k=" + url.QueryEscape(text)
+		}
+		body := []byte(`{"plain":"pp"}`)
+		ctype := "application/json"
+		if hc.Src == "form" {
+			f := url.Values{}
+			f.Set("k", text)
+			body, ctype = []byte(f.Encode()), "application/x-www-form-urlencoded"
+		}
+		hr, err := stdh.NewRequest("POST", u, bytes.NewReader(body))
+		if err != nil {
+			die("request: %v", err)
+		}
+		hr.Header.Set("Content-Type", ctype)
+		if hc.Src == "header" {
+			hr.Header.Set("k", text)
+		}
+		if hc.Src == "cookie" {
+			hr.AddCookie(&stdh.Cookie{Name: "k", Value: text})
+		}
+		var params []dhttp.Param
+		if hc.Src == "path" {
+			params = append(params, dhttp.Param{Key: "k", Value: text})
+		}
+		req, err := dhttp.NewHTTPRequestFromStdReq(hr, params...)
+		if err != nil {
+			die("NewHTTPRequestFromStdReq: %v", err)
+		}
+		cv := j2t.NewBinaryConv(conv.Options{EnableHttpMapping: true})
+		ctx := context.WithValue(context.Background(), conv.CtxKeyHTTPRequest, req)
+		var src []byte
+		if hc.Src != "form" {
+			src = body
+		}
+		out, err := cv.Do(ctx, desc, src)
+		if err != nil {
+			ev["st"] = "err"
+			ev["note"] = err.Error()
+			return
+		}
+		v, n, derr := DecodeVal(12, out, 0, 0)
+		if derr != nil || n != len(out) {
+			ev["st"] = "malformed"
+			return
+		}
+		cnt := 0
+		for _, f := range v.F {
+			switch f.ID {
+			case 1:
+				cnt++
+				ev["t"], ev["got"] = int(f.V.T), B(f.V.Enc(nil))
+			case 2:
+				ev["plain"] = string(f.V.B) == "pp"
+			}
+		}
+		if cnt != 1 {
+			ev["st"] = fmt.Sprintf("field-written-%d-times", cnt)
+		}
+	}()
+	c.out.Emit(ev)
+}
+
 // ---- response side ----
 
 func (c *c17) response(kind string, ty string) {
@@ -389,12 +520,22 @@ func c17Main(args map[string]string) {
 				return
 			}
 			var probe struct {
+				Kind string `json:"kind"`
 				Resp string `json:"resp"`
 				Ty   string `json:"ty"`
 				Many int    `json:"many"`
 				Body bool   `json:"body"`
 			}
 			json.Unmarshal(line, &probe)
+			if probe.Kind == "hv" {
+				var hv HVCase
+				if err := json.Unmarshal(line, &hv); err != nil {
+					die("bad hv case: %v: %s", err, line)
+				}
+				c.out.Begin(idx-1, hv)
+				c.hv(hv)
+				return
+			}
 			if probe.Many > 0 {
 				c.out.Begin(idx-1, probe)
 				c.many(probe.Many, probe.Body)
